@@ -282,6 +282,13 @@ def calculate_sro(rep, mod, rule):
             plain += 1
             if ret != S:
                 probs.append('returns `%s` although no repair is needed' % ret[:60])
+            elif not (rootnone is True or nonempty is False or lastroot is True):
+                # the unrepaired order may only be handed out when the path has
+                # established that there is no root, nothing was computed, or the
+                # root already is the last element
+                probs.append('a path returns the computed order unrepaired without having '
+                             'established that the root is already last (facts: root is None=%s, '
+                             'order non-empty=%s, last is root=%s)' % (rootnone, nonempty, lastroot))
     if not fixed or not plain:
         probs.append('repair paths %d, plain paths %d' % (fixed, plain))
     rep.check(rule, site, bool(ss) and not pb,
